@@ -13,6 +13,7 @@ and all configurations. The Machine's completed result (`Completed`: verified ce
 indexes, time) is an input: that it is only produced for an authenticated peer is C05.
 -/
 import Nebula.Lemmas.HsManagerStep
+import Nebula.Lemmas.HsCompose
 
 namespace Nebula.Props.C09
 open Nebula.HsManager Nebula.Lemmas.HsManager
@@ -144,5 +145,79 @@ example : ((Node.init cfg0).run [.stage1 1 77 (some { c0 with certAddrs := [1, 5
 def cfgOwn : Cfg := { node := 0, myAddrs := [1, 20], hasV1 := true, hasV2 := true, retries := 5, interval := 100000000 }
 example : ((Node.init cfgOwn).run [.lh 20 1, .rehs 20, .tick 0, .tick 100000000, .tick 200000000,
     .stage2 1 1001 (.completed { certAddrs := [5, 20], certVer := 2, remoteIndex := 2001, time := 3 })]).main = {} := by decide
+
+/-! ### Composition with the handshake.Machine model (C05)
+
+Above, the Machine's completed result is an arbitrary input of the `stage1` / `stage2` events. Below it is not an
+input any more: the composed system (`Lemmas/HsCompose.lean`) owns Machine-model instances — a fresh responder
+Machine per received first message, one Machine per pending handshake — drives them with ARBITRARY packets and
+ARBITRARY answers of the noise library, cert.Recombine, the trust check, the index allocator and the clock, and
+turns their return values into manager steps the way beginHandshake / continueHandshake do (`glue`, `stage2Res`).
+The "verified certificate" hypothesis is discharged by C05's `complete_implies_verified_partial`. -/
+
+section
+open Nebula.HsCompose
+
+/-- every completed result the manager ever acts on, in any history of the composed system, is VERIFIED: its
+addresses and version are those of a certificate object the trust check returned in a Machine call whose noise
+read succeeded and whose recombined certificate carried exactly that read's PeerStatic() -/
+theorem manager_installs_only_verified (cfg : Cfg) (info : Machine.CertId → CertInfo) (cevs : List CEv) :
+    let s := (Sys.init cfg).run info cevs
+    s.node = (Node.init cfg).run s.fed ∧ ∀ c ∈ comps s.fed, Verified info s.mlog c := by
+  have h := run_cinv cfg info cevs (Sys.init cfg) (CInv.init cfg info)
+  exact ⟨h.node, h.ver⟩
+
+/-- C09 with the hypothesis discharged: after ANY history of the composed system, every tunnel listed for
+address `a` has `a` among its recorded addresses, none of them is an own address, and the recorded addresses are
+exactly the addresses of a certificate `cert` (which therefore lists `a`) that the trust check accepted in a
+Machine call of that history — `e.accepts cert`: the noise read of that call succeeded, the certificate
+recombined from its message carried exactly that read's PeerStatic() (`key`), and the verifier returned `cert`
+(`accepts_means` of Props/C05 spells it out). What remains assumed is C05's: that PeerStatic() of a successful
+flynn/noise IX read belongs to the sender (Noise/crypto oracles; symbolic model `ix_auth_symbolic`). -/
+theorem tunnels_bound_to_verified_certificate (cfg : Cfg) (info : Machine.CertId → CertInfo) (cevs : List CEv)
+    (a : Addr) (h : HostInfo) (hm : h ∈ ((Sys.init cfg).run info cevs).node.main.getList a) :
+    a ∈ h.vpnAddrs ∧ (∀ x ∈ h.vpnAddrs, x ∉ cfg.myAddrs) ∧
+    ∃ cert, h.vpnAddrs = (info cert).addrs ∧ a ∈ (info cert).addrs ∧
+      ∃ e ∈ ((Sys.init cfg).run info cevs).mlog, e.accepts cert = true ∧ ∃ key, e.peerStatic = some key := by
+  obtain ⟨hn, hv⟩ := manager_installs_only_verified cfg info cevs
+  rw [hn] at hm
+  obtain ⟨ha, ⟨c, hc, he, hac⟩, hself⟩ := tunnels_bound_to_certified_address cfg _ a h hm
+  obtain ⟨cert, e1, _, e, hel, hacc, key, hk⟩ := hv c hc
+  exact ⟨ha, hself, cert, by rw [he, e1], by rw [← e1]; exact hac, e, hel, hacc, key, hk⟩
+
+/-- … and what such an accepting call looked like (C05's `accepts_means`): a packet call whose noise read
+returned PeerStatic() = `ps`, whose recombined certificate has public key `ps`, and whose trust check returned `cert`. -/
+theorem accepting_call_shape (e : Machine.Ev) (cert : Machine.CertId) (h : e.accepts cert = true) :
+    ∃ len st rd co now wr msg k1 k2 ps ver, e = .pkt len st rd co now wr ∧ rd = .ok msg k1 k2 ps ∧
+      co.recombine = some (ps, ver) ∧ co.verify = some cert := by
+  cases e with
+  | init now wr => simp [Machine.Ev.accepts] at h
+  | pkt len st rd co now wr =>
+    obtain ⟨msg, k1, k2, ps, ver, h1, h2, h3⟩ := Nebula.Props.C05.accepts_means rd co cert (by simpa [Machine.Ev.accepts] using h)
+    exact ⟨len, st, rd, co, now, wr, msg, k1, k2, ps, ver, rfl, h1, h2, h3⟩
+
+/-- no tunnel for an own address, in the composed system too -/
+theorem no_tunnel_to_own_address_composed (cfg : Cfg) (info : Machine.CertId → CertInfo) (cevs : List CEv)
+    (a : Addr) (ha : a ∈ cfg.myAddrs) : ((Sys.init cfg).run info cevs).node.main.getList a = [] := by
+  obtain ⟨hn, _⟩ := manager_installs_only_verified cfg info cevs
+  rw [hn]; exact no_tunnel_to_own_address cfg _ a ha
+
+-- non-vacuity: a responder Machine (the honest step of Props/C05's example) accepts certificate "peer" with
+-- networks [2, 5]; the composed system installs the tunnel under both addresses
+def infoEx : Machine.CertId → CertInfo := fun _ => { addrs := [2, 5], ver := 2, id := 12 }
+def callEx : Machine.Ev :=
+  .pkt 100 0 (.ok (Nebula.Payload.marshalPayload [] { cert := [1, 2, 3], initiatorIndex := 9, time := 5, certVersion := 2 }) false false [7, 7])
+    ⟨some ([7, 7], 2), some "peer"⟩ 11 (.ok true true)
+def mcEx : Machine.Cfg := { initiator := false, subtype := 0, msgs := Machine.ixMsgs, haveCred := fun v => v == 2,
+                            credVersion := id, alloc := some 7 }
+
+example : ((((Sys.init cfg0).run infoEx [.recv1 1 77 2 0 mcEx 2 callEx]).node.main.getList 5).map (·.vpnAddrs)) = [[2, 5]] := by
+  decide
+-- the same call with the trust check refusing the certificate installs nothing
+example : (((Sys.init cfg0).run infoEx [.recv1 1 77 2 0 mcEx 2
+    (.pkt 100 0 (.ok (Nebula.Payload.marshalPayload [] { cert := [1, 2, 3], initiatorIndex := 9, time := 5, certVersion := 2 }) false false [7, 7])
+      ⟨some ([7, 7], 2), none⟩ 11 (.ok true true))]).node.main) = {} := by decide
+
+end
 
 end Nebula.Props.C09
